@@ -1804,6 +1804,16 @@ impl Engine for OtlpSim {
                             ),
                         );
                     }
+                    // a request the collector never finishes answering is given up by the client at its request timeout
+                    // (30 s for the whole exchange, trailers included) and sent again after a back-off of at most 10 s
+                    // (not judged in runs with a connection that goes dark: the attempt it swallows is in no log)
+                    if matches!(a.decision, Decision::Stall | Decision::StallAfterHeaders) && b.at > a.at + Duration::from_secs(70) && !fired.contains_key("connection_wedged") {
+                        out.violate(
+                            "C12",
+                            "stalled_request_not_given_up",
+                            format!("{sig:?}: the request of {:?} got no (complete) answer ({:?}); the next attempt came at {:?}, more than the request timeout and the longest back-off later", a.at, a.decision, b.at),
+                        );
+                    }
                     if b.at < a.at + Duration::from_millis(500) {
                         out.violate(
                             "C12",
